@@ -425,6 +425,8 @@ class SymInterp(PathInterp):
             yield ("normal", st)
 
     def cond(self, test, st: Sym):
+        if isinstance(test, ast.Constant) and isinstance(test.value, bool):
+            return ([st], []) if test.value else ([], [st])
         st = self._walrus(test, st)
         pol = True
         t = test
